@@ -1,3 +1,226 @@
-//! C17, process level (filled in with the CLI sweeps).
-use crate::report::{Report, Tier};
-pub fn run_process(_rep: &mut Report, _tier: Tier) {}
+//! C17, external-backend part: every failure kind of the stand-in external solver at every call
+//! position, (a) in-process through ExternalSatSolver on the library API, (b) through the
+//! `crustabri solve --external-sat-solver` command line.
+use crate::checks::c05::{has_answer_line, run as run_process_once, Invocation, BIN_SOLVE};
+use crate::checks::c15::FAKE_SAT;
+use crate::checks::c16::{external_factory, scratch_dir};
+use crate::choicesat::catch;
+use crate::refmodel::Graph;
+use crate::report::{Report, Tier, Violation};
+use crate::staticq::{run_query, QKind};
+use crate::sweep::{queries_for, with_presentation, ArgLists, BuiltVisitor};
+use crate::universe::{Built, Presentation};
+use crustabri::utils::LabelType;
+use rayon::prelude::*;
+use serde_json::json;
+use std::collections::BTreeMap;
+
+pub const MODES: [&str; 12] = ["exit-silent", "status-only", "truncate-zero", "truncate-token", "truncate-mid", "garbage-line", "two-status", "var-out-of-range", "crash", "unknown-status", "c-garbage", "bare-v"];
+
+#[derive(Default)]
+struct Acc {
+    runs: u64,
+    triggered: u64,
+    aborted: u64,
+    violations: BTreeMap<String, (u64, Violation)>,
+    modes_triggered: BTreeMap<String, u64>,
+    sample: Option<serde_json::Value>,
+}
+
+impl Acc {
+    fn merge(mut self, o: Acc) -> Acc {
+        self.runs += o.runs;
+        self.triggered += o.triggered;
+        self.aborted += o.aborted;
+        for (k, (n, v)) in o.violations {
+            let e = self.violations.entry(k).or_insert((0, v));
+            e.0 += n;
+        }
+        for (k, v) in o.modes_triggered {
+            *self.modes_triggered.entry(k).or_insert(0) += v;
+        }
+        if self.sample.is_none() {
+            self.sample = o.sample;
+        }
+        self
+    }
+}
+
+struct LibSweep<'a> {
+    g: &'a Graph,
+    idx: usize,
+    max_k: usize,
+    acc: &'a mut Acc,
+}
+
+impl<'a> BuiltVisitor for LibSweep<'a> {
+    fn visit<T: LabelType>(&mut self, b: &Built<T>) {
+        let dir = scratch_dir("c17lib");
+        let cnt = dir.join(format!("cnt_{}.txt", self.idx));
+        let mark = dir.join(format!("mark_{}.txt", self.idx));
+        let queries = queries_for(self.g.n, &[QKind::SE, QKind::DC, QKind::DS], &crate::refmodel::ALL_SEMS, &[true], &ArgLists::Single, false);
+        for (qi, q) in queries.iter().enumerate() {
+            if q.sem == crate::refmodel::Sem::GR || (q.sem == crate::refmodel::Sem::CO && q.kind != QKind::DC) {
+                continue;
+            }
+            for (mi, mode) in MODES.iter().enumerate() {
+                // rotate the modes over queries on larger graphs, all modes on the smallest ones
+                if self.g.n >= 2 && (qi + mi) % 3 != 0 {
+                    continue;
+                }
+                for k in 1..=self.max_k {
+                    let _ = std::fs::remove_file(&cnt);
+                    let _ = std::fs::remove_file(&mark);
+                    let opts = vec![format!("cnt={}", cnt.display()), format!("mark={}", mark.display()), format!("fail={}@{}", mode, k)];
+                    let r = catch(|| run_query(b, q, external_factory(opts)));
+                    self.acc.runs += 1;
+                    let calls: usize = std::fs::read_to_string(&cnt).ok().and_then(|s| s.trim().parse().ok()).unwrap_or(0);
+                    if calls < k {
+                        break; // this query makes fewer than k SAT calls
+                    }
+                    if !mark.exists() {
+                        continue; // the k-th call was UNSAT: a model-corrupting failure kind did not fire
+                    }
+                    self.acc.triggered += 1;
+                    *self.acc.modes_triggered.entry(mode.to_string()).or_insert(0) += 1;
+                    match r {
+                        Err(_) => self.acc.aborted += 1,
+                        Ok(out) => {
+                            let key = format!("level=external_backend;mode={};symptom=answer_after_backend_failure", mode);
+                            let v = Violation {
+                                property: "C17".into(),
+                                key: key.clone(),
+                                message: format!("{} {:?} enc={} on {}: the external solver failed ({}) at SAT call {} but the query returned: {}", q.problem(), q.args, q.enc.name(), self.g.describe(), mode, k, out.describe()),
+                                case: json!({"engine": "external_fault", "graph": self.g.to_json(), "query": q.to_json(), "mode": mode, "call": k}),
+                            };
+                            let e = self.acc.violations.entry(key).or_insert((0, v));
+                            e.0 += 1;
+                        }
+                    }
+                    if self.acc.sample.is_none() && k == 2 {
+                        self.acc.sample = Some(json!({"graph": self.g.describe(), "query": q.to_json(), "backend_failure": mode, "at_call": k}));
+                    }
+                }
+            }
+        }
+    }
+}
+
+pub fn run_process(rep: &mut Report, tier: Tier) {
+    let thorough = tier == Tier::Thorough;
+    if !std::path::Path::new(FAKE_SAT).exists() {
+        rep.machinery_errors.push("fake_sat not built".into());
+        return;
+    }
+    // (a) library level through ExternalSatSolver
+    let mut graphs: Vec<Graph> = crate::universe::universe_upto(2);
+    let iso3 = crate::universe::iso_representatives(3);
+    graphs.extend(iso3.into_iter().enumerate().filter(|(i, _)| thorough || i % 8 == 3).map(|(_, g)| g));
+    let acc = graphs
+        .par_iter()
+        .enumerate()
+        .with_max_len(1)
+        .map(|(i, g)| {
+            let mut acc = Acc::default();
+            let mut sw = LibSweep { g, idx: i, max_k: if thorough { 5 } else { 3 }, acc: &mut acc };
+            with_presentation(g, Presentation::Compact, &mut sw);
+            acc
+        })
+        .reduce(Acc::default, Acc::merge);
+    rep.traces += acc.triggered;
+    rep.evaluations += acc.triggered;
+    rep.states += acc.triggered;
+    rep.transitions += acc.runs;
+    rep.distinct_nontrivial += acc.modes_triggered.len() as u64;
+    rep.extra.insert(
+        "space:external backend failing in 12 ways at SAT call k (library level, ExternalSatSolver + stand-in program)".into(),
+        json!({"graphs": graphs.len(), "runs": acc.runs, "runs_in_which_the_failure_was_reached": acc.triggered, "aborted": acc.aborted, "failures_reached_per_mode": acc.modes_triggered}),
+    );
+    if let Some(s) = acc.sample {
+        rep.add_sample(s);
+    }
+    for (_, (n, v)) in acc.violations {
+        rep.n_violations += n - 1;
+        rep.add_violation(v);
+    }
+    // (b) command line
+    if !std::path::Path::new(BIN_SOLVE).exists() {
+        rep.machinery_errors.push("repository binaries not built".into());
+        return;
+    }
+    let dir = scratch_dir("c17cli");
+    let cli_graphs = vec![Graph::new(2, &[(0, 1), (1, 0)]), Graph::new(3, &[(0, 1), (1, 2), (2, 0)]), Graph::new(3, &[(0, 1), (1, 0), (1, 2), (2, 2)])];
+    let mut tasks: Vec<(usize, String, Option<usize>, &str, usize)> = vec![];
+    for (gi, g) in cli_graphs.iter().enumerate() {
+        std::fs::write(dir.join(format!("g{}.af", gi)), crate::universe::iccma_text(g)).unwrap();
+        let mut pi = 0;
+        for kind in ["SE", "DC", "DS"] {
+            for sem in ["CO", "PR", "ST", "SST", "STG", "ID"] {
+                if sem == "CO" && kind != "DC" {
+                    continue;
+                }
+                pi += 1;
+                for (mi, mode) in MODES.iter().enumerate() {
+                    if !thorough && (gi + pi + mi) % 4 != 0 {
+                        continue;
+                    }
+                    for k in 1..=(if thorough { 3 } else { 2 }) {
+                        tasks.push((gi, format!("{}-{}", kind, sem), if kind == "SE" { None } else { Some(1) }, mode, k));
+                    }
+                }
+            }
+        }
+    }
+    let cacc = tasks
+        .par_iter()
+        .enumerate()
+        .map(|(ti, (gi, problem, arg, mode, k))| {
+            let mut acc = Acc::default();
+            let cnt = dir.join(format!("cnt_{}.txt", ti));
+            let mark = dir.join(format!("mark_{}.txt", ti));
+            let _ = std::fs::remove_file(&cnt);
+            let _ = std::fs::remove_file(&mark);
+            let mut a = vec!["solve".to_string(), "-f".into(), dir.join(format!("g{}.af", gi)).display().to_string(), "-p".into(), problem.clone(), "--logging-level".into(), "off".into(), "-c".into(),
+                "--external-sat-solver".into(), FAKE_SAT.into(), "--external-sat-solver-opt".into(), format!("cnt={}", cnt.display()), format!("mark={}", mark.display()), format!("fail={}@{}", mode, k)];
+            if let Some(x) = arg {
+                a.insert(5, "-a".into());
+                a.insert(6, x.to_string());
+            }
+            let inv = Invocation { bin: BIN_SOLVE, args: a };
+            let r = run_process_once(&inv);
+            acc.runs += 1;
+            let calls: usize = std::fs::read_to_string(&cnt).ok().and_then(|s| s.trim().parse().ok()).unwrap_or(0);
+            if calls >= *k && mark.exists() {
+                acc.triggered += 1;
+                *acc.modes_triggered.entry(mode.to_string()).or_insert(0) += 1;
+                let answer = has_answer_line(&r.stdout);
+                if r.code == Some(0) || answer.is_some() {
+                    let key = format!("level=command_line;mode={};symptom={}", mode, if answer.is_some() { "answer_printed" } else { "exit_status_zero" });
+                    let v = Violation {
+                        property: "C17".into(),
+                        key: key.clone(),
+                        message: format!("crustabri {}: the external solver failed ({}) at SAT call {} but the process exited with {:?} and printed {:?}", inv.args.join(" "), mode, k, r.code, r.stdout),
+                        case: json!({"engine": "cli", "bin": inv.bin, "args": inv.args, "stdout": r.stdout, "exit": r.code}),
+                    };
+                    let e = acc.violations.entry(key).or_insert((0, v));
+                    e.0 += 1;
+                } else {
+                    acc.aborted += 1;
+                }
+            }
+            acc
+        })
+        .reduce(Acc::default, Acc::merge);
+    rep.traces += cacc.triggered;
+    rep.evaluations += cacc.triggered;
+    rep.states += cacc.triggered;
+    rep.transitions += cacc.runs;
+    rep.extra.insert(
+        "space:external backend failing at SAT call k through `crustabri solve --external-sat-solver`".into(),
+        json!({"processes": cacc.runs, "runs_in_which_the_failure_was_reached": cacc.triggered, "non_zero_exit_without_answer": cacc.aborted, "failures_reached_per_mode": cacc.modes_triggered}),
+    );
+    for (_, (n, v)) in cacc.violations {
+        rep.n_violations += n - 1;
+        rep.add_violation(v);
+    }
+}
